@@ -81,9 +81,6 @@ theorem C17_dir_name_irrelevant {c : WalkCfg} {p : Str} (hp : c.pfx = some p) (e
 
 /-! ## several inputs in one run -/
 
-/-- what input `i` generates when documented alone -/
-def aloneOut (c : WalkCfg) (i : MainInput) : RunResult := (document c i.excl i.exclRoot i.inp {}).1
-
 /-- a run over the single input `i` produces `aloneOut c i` -/
 theorem C17_alone (c : WalkCfg) (i : MainInput) : (runMain c [i] {}).1 = aloneOut c i := by
   rw [runMain_cons_ok rfl]
@@ -163,17 +160,6 @@ theorem C17_status_ok {c : WalkCfg} {is : List MainInput} {r : RunResult} (hr : 
     · exact fun j hj => h j (by simp [hj])
 
 /-! ## Non-vacuity: a run over the example directory and a lone file, in both orders -/
-
-def exInDir : MainInput := ⟨.dir (lit "P") exTree, exExcl, false⟩
-def exInFile : MainInput := ⟨.file (lit "x.cmake") (lit "set(x)\n"), exExcl, false⟩
-
-theorem exInDir_ok : (aloneOut exCfg exInDir).error = none ∧
-    (document exCfg exInDir.excl exInDir.exclRoot exInDir.inp {}).2 = false :=
-  ⟨walkDir_error_none ex_treeOk rfl (items_ok_of_file (by decide) ex_ok), rfl⟩
-
-theorem exInFile_ok : (aloneOut exCfg exInFile).error = none ∧
-    (document exCfg exInFile.excl exInFile.exclRoot exInFile.inp {}).2 = false := by
-  constructor <;> decide +kernel
 
 example : (runMain exCfg [exInDir, exInFile] {}).2 = .ok :=
   C17_status_ok rfl (by
